@@ -125,6 +125,13 @@ pub mod facade {
     Ok(ZmtpEngine::new(is_server, cfg))
   }
 
+  /// X25519 public key for a secret key (both CURVE and Noise_XX static keys are X25519).
+  #[cfg(feature = "noise_xx")]
+  pub fn x25519_public(secret: [u8; 32]) -> [u8; 32] {
+    let sk = x25519_dalek::StaticSecret::from(secret);
+    x25519_dalek::PublicKey::from(&sk).to_bytes()
+  }
+
   /// `NullFramer` (the plain ZMTP framer used on NULL/PLAIN connections).
   pub struct NullFramerX(NullFramer);
   impl NullFramerX {
